@@ -1,7 +1,7 @@
 CONSTANTS MaxSecs = 2
  MaxHm = 3
  MaxCmds = 2
- MaxPay = 2
+ MaxPay = 1
  Chains = {"k0", "ss4096", "ch3"}
 INIT Init
 NEXT Next
